@@ -481,7 +481,26 @@ def gen_encode_honest(tier, rng, encoders, exhaustive_chunks):
 
 
 def gen_c04(tier, rng):
-    return gen_encode_honest(tier, rng, [0, 1, 4], 3 if tier == "quick" else 5)
+    cases = gen_encode_honest(tier, rng, [0, 1, 4], 3 if tier == "quick" else 5)
+    # the non-validating encoders produce the same bytes wherever every touched group is fully selected
+    # (always at block size 0; group-aligned selections above it; elsewhere: finding F6, checked under C08)
+    for size in (ENC_SIZES if tier == "quick" else ENC_SIZES + [23 * 1024 + 512, 31 * 1024 + 1]):
+        n = nchunks(size)
+        for q in pick_queries(n, rng, 2, (8 if tier == "quick" else 24)):
+            for e in (2, 3):
+                cases.append(("encode", [rng.randrange(0, 3), seed(rng), size, 0, e, rng.randrange(0, 4), 0] + q))
+        for bs in (1, 2, 3):
+            g = 1 << bs
+            groups = -(-n // g)
+            qs = [[0]]
+            for _ in range(4):
+                k = rng.randrange(0, groups)
+                m = rng.randrange(k + 1, groups + 3)
+                qs += [[k * g], [k * g, m * g], [0, m * g]]
+            for q in qs:
+                for e in (2, 3):
+                    cases.append(("encode", [rng.randrange(0, 3), seed(rng), size, bs, e, rng.randrange(0, 4), 0] + q))
+    return cases
 
 
 def gen_c05(tier, rng):
@@ -524,7 +543,8 @@ PROPS["C04"] = Prop(
     [F_ENCODE], gen_c04,
     "encode (intact stores): byte-size classes up to 16 KiB (quick) / every multiple of 512 up to 20 KiB and 31 KiB+1 (thorough) x bs 0..3/4 x "
     "every boundary subset in 0..nchunks+2 for blobs of <= 3/5 chunks, representative + random queries beyond, x {sync, fsm, item-stream} "
-    "validating encoders x 4 store kinds; output compared with the recursive spec enc_spec (pruning rule). The harness's bao slice "
+    "validating encoders x 4 store kinds; output compared with the recursive spec enc_spec (pruning rule); the two non-validating encoders at "
+    "block size 0 (all queries) and on group-aligned selections at bs 1..3. The harness's bao slice "
     "comparison families are listed separately. non-trivial = non-empty output",
     trusted=["Spec/EncSpec.v enc_spec is my statement of the pruned bao format; tied to bao 0.12.1 at block size 0 by the bao family"],
 )
@@ -748,7 +768,7 @@ def gen_c20(tier, rng):
                 sd = seed(rng)
                 lay = honest_layout(size, bs, q)
                 L = sum(x[2] for x in lay)
-                for d in (0, 1):
+                for d in (0, 1, 4):
                     cases.append(dec_case(0, sd, size, bs, size, d, 0, q))
                     # every prefix of the decode step sequence: cut after each item, and inside each item
                     off = 0
@@ -1244,8 +1264,10 @@ def gen_grow(tier, rng):
             pairs = rng.sample(pairs, min(len(pairs), 120))
         elif len(pairs) > 1500:
             pairs = rng.sample(pairs, 1500)
-        for (s1, s2) in pairs:
-            cases.append(("grow", [0, seed(rng), s1, s2, bs]))
+        for i, (s1, s2) in enumerate(pairs):
+            # route 0: memory outboards from slices; 1: one file handle appended to and re-hashed with create();
+            # 2: outboard_post_order into a sink that takes at most 100 bytes per write
+            cases.append(("grow", [0, seed(rng), s1, s2, bs, i % 3]))
     return cases
 
 
@@ -1292,7 +1314,7 @@ def gen_c14_cross(tier, rng):
                     continue
                 for bs in (0, 1, 2):
                     sd = seed(rng)
-                    e = rng.choice([0, 1, 4])
+                    e = rng.choice([0, 1, 4] + ([2, 3] if bs == 0 else []))
                     cases.append(("encode", [0, sd, size, bs, e, rng.randrange(0, 4), 0] + q1))
                     cases.append(("encode", [0, sd, size, bs, e, rng.randrange(0, 4), 0] + q2))
                     d, sk = rng.choice(drivers_and_sinks(rng, False))
@@ -1450,13 +1472,13 @@ PROPS["C04"] = Prop(
 # ------------------------------------------------------------------ what each check establishes (MANIFEST level text)
 STATUS = {
  "C01": "Proved for every stream (hash_ok hypothesis): both decoders, set up with the blob's root / size / block size and any well-formed non-empty query, yield a prefix of the honest items, finish only on streams that start with the honest encoding, fail exactly where the stream departs, never panic (C01_e2e_sync/fsm), and decode_ranges writes only those items' bytes (C01_e2e_decode_ranges*). Stated up to the first error; past-the-error behaviour of the fsm decoder is known finding F7. Wrong claimed sizes: C16.",
- "C02": "Proved: decoding flat(honest) ++ rest yields exactly the honest items and leaves rest (sync, fsm, decode_ranges), the leaves deliver exactly the selected chunks (C02_delivers_selection), the empty query encodes / decodes to nothing. The encoder side (validating encoders = flat(honest)) is theorem C02_enc_is_spec_* in Props/C02enc.v once merged; until then it is carried by the encode correspondence family.",
+ "C02": "Proved (hash_ok): on any store created by the crate both validating encoders return flat(honest) (C02_enc_is_spec_*, C05_created_store_ok), and every decoder (sync, fsm, decode_ranges) fed that encoding followed by arbitrary further bytes yields exactly the honest items, finishes, and leaves the further bytes unread (C02_roundtrip_full_*); the leaves deliver exactly the selected chunks (C02_delivers_selection); the empty query encodes / decodes to nothing.",
  "C03": "Proved unconditionally (C03_*_e2e): every creation entry point of the model returns root_hash = BLAKE3 tree hash of the data (C03_root_is_blake3_tree) and the io-backed / memory outboards hold exactly the recursive spec_outboard bytes of (blocks-1)*64 bytes. bao equality at block size 0 is carried by the harness comparison with the bao crate.",
- "C04": "Function of the selection: Bridge_function_of_selection / C14_encode_equiv proved for the specification; encoder = specification and the pruning rule are theorems of Props/C04.v once merged (in progress), otherwise carried by the encode / bao / shortw correspondence families against the recursive spec.",
- "C05": "Exact oracle (first corrupted plan unit in honest order) checked on every run against sync / fsm / item-stream encoders; theorems C05_prefix / C05_detects in progress (Props/C05.v).",
- "C06": "Exact oracle (touched, chain_ok, leaf_ok recursion) checked on every run for the four validators over five outboard kinds; theorems C06_* in progress (Props/C06.v).",
- "C07": "State-machine differential over all depth-2 (quick) / depth-3 (thorough) histories + random ones with failing sinks; Inv / convergence theorems in progress (Props/C07.v). decode_ranges under sink faults is characterised by C10_decode_sink_fault.",
- "C08": "Sync and fsm decoders are proved to satisfy the same specification (C01/C09 e2e); encoder agreement theorems in progress (Props/C08.v). Known finding F6 (non-validating encoders).",
+ "C04": "Proved: both validating encoders compute the recursive specification, which depends on (data, block size, selected chunks) only (C04_function_of_selection*), the parent items are those of the block-size-0 encoding minus exactly the nodes inside fully selected subtrees of at most one group (C04_pruning, C04_keep_def, C04_honest_nodes), nothing is pruned at block size 0 (C04_bs0_is_bao_layout). Byte equality with the bao crate at block size 0 is carried by the bao correspondence family (the bao crate is not modelled).",
+ "C05": "Proved (hash_ok): on ANY store contents the validating encoders (sync, fsm) write a prefix of flat(honest) and stop with the hash-mismatch error at the first plan unit whose stored bytes differ (C05_prefix*, C05_detects*), independent of everything behind it (C05_independent*); on a created store they succeed with flat(honest) (C05_created_store_ok). The item-stream encoder inherits this through C08_encode_agree (same items, same error, any store).",
+ "C06": "Proved (hash_ok): the four validators compute the (touched, chain_ok, leaf_ok) recursion on ANY store contents (C06_data_exact, C06_outboard_exact); everything reported is truly stored and chained to the root (C06_reported_is_true, C06_chain_ok_true, C06_leaf_ok_true), everything valid and touched is reported (C06_valid_is_reported), intact / created stores are reported completely (C06_intact_complete, C06_created_store_complete), sync = fsm on tree nodes (C06_sync_eq_fsm_tree).",
+ "C07": "Proved (hash_ok): Inv (target and store agree with the blob on the delivered set) holds initially and is preserved by every decode_ranges step, sync or fsm, on ANY stream and under any sink fault (C07_inv_step, C07_inv_history); the validator reports exactly the completely delivered groups in every reachable state (C07_validator_exact*); once the delivered set covers all chunks the state is (blob, created store) (C07_converges, C07_history_converges*).",
+ "C08": "Proved: creation sync = fsm unconditionally (C08_outboard_agree); decoding sync = fsm on EVERY stream (C08_decode_agree, C08_decode_cases); validating encoders sync = fsm under load agreement, discharged for memory and pre-sized io-backed stores (C08_encode_agree, C08_load_agree_*); the non-validating encoders equal the validating ones exactly when every touched group is fully selected, refuted otherwise = known finding F6 (C08_nonvalidating_*). The item-stream traversal yields, for any data and any store, Size, then items whose bytes are exactly the sync encoder's output, then Done / the same error (C08_encode_agree, C08_mixed_frame).",
  "C09": "Proved (hash_ok): truncation at any byte / alteration of any byte of the honest stream yields exactly the items before it and NotFound / HashMismatch naming the item containing the byte (C09_e2e_*), io kinds by computation; no panic up to the first error (C16_total). Panic of the sync iterator polled after an error: known finding F8.",
  "C10": "Proved: first-failure semantics over the per-operation call lists (surfaces, nothing after, prefix), classification of every call site, decode_ranges with failing sinks, read loops with a failing read. Partial by nature: the call lists are tied to the crate by the logged-call correspondence; OS / runtime behaviour around a failing call is outside the model.",
  "C11": "Proved: the three exact-read loops, both decoders and outboard creation give schedule-independent results (Interrupted excluded for tokio read_exact, with a refuting witness). Partial by nature: poll-level suspension is exhibited by the harness only.",
